@@ -81,6 +81,10 @@ def handle : Sexp → Sexp
     match bool? hd, bytesList frags, bool? cl with
     | some hd, some fr, some cl => .list [respObs (respRun hd fr cl), respObs (respRun hd [fr.flatten] cl)]
     | _, _, _ => sym "bad-request"
+  | .list [.atom "respcf", hd, .list frags] =>       -- close signalled before the parse of the last read
+    match bool? hd, bytesList frags with
+    | some hd, some fr => .list [respObs (respRunCloseFirst hd fr), respObs (respRun hd [fr.flatten] true)]
+    | _, _ => sym "bad-request"
   | .list [.atom "respseq", hd, .list streams] =>
     match bool? hd, streams.mapM (fun c => match c with | .list fr => bytesList fr | _ => none) with
     | some hd, some sts =>
